@@ -234,19 +234,32 @@ theorem mu_lt_fuel (R : RTbl V) (a : Name) (vis : List Name) (s : Dict V) : mu R
 def Full (R : RTbl V) (d : Name) (s : Dict V) : Prop :=
   s d = clearedVal R d ∧ ∀ e, Reach R d e → s e = clearedVal R e
 
-/-- `d` has been dealt with: it is empty and in `_visited`, or it was deleted/reset (and then
-`__delattr__`/`mutate_attr` invalidated everything below it). -/
-def Done (R : RTbl V) (d : Name) (vis : List Name) (s : Dict V) : Prop :=
-  (d ∈ vis ∧ s d = none ∧ dfltOf R d = none) ∨ Full R d s
+/-- `delattr(obj, z)` would not raise: `z` has a default to go back to, or holds a value. -/
+def Deletable (R : RTbl V) (s : Dict V) (z : Name) : Prop := (dfltOf R z).isSome ∨ (s z).isSome
 
-def Closed (R : RTbl V) (y : Name) (vis : List Name) (s : Dict V) : Prop :=
-  dfltOf R y = none ∧ s y = none ∧ ∀ d, Edge R y d → Done R d vis s
+/-- Every member of `_visited` other than the root `r` (the attribute whose mutation started the
+top-level call) holds nothing and has no default. -/
+def VisOK (R : RTbl V) (r : Name) (vis : List Name) (s : Dict V) : Prop :=
+  ∀ y ∈ vis, y = r ∨ (s y = none ∧ dfltOf R y = none)
 
-structure Post (R : RTbl V) (a : Name) (vis : List Name) (s : Dict V) (vis' : List Name) (s' : Dict V) : Prop where
-  p1 : ∀ x, s' x = s x ∨ (Reach R a x ∧ s' x = clearedVal R x)
+/-- `d` has been dealt with: it is in `_visited` (the root itself, which is skipped, or an empty
+node), or it was deleted/reset (and then `__delattr__`/`mutate_attr` invalidated everything below it). -/
+def Done (R : RTbl V) (r d : Name) (vis : List Name) (s : Dict V) : Prop :=
+  (d ∈ vis ∧ (d = r ∨ (s d = none ∧ dfltOf R d = none))) ∨ Full R d s
+
+def Closed (R : RTbl V) (r y : Name) (vis : List Name) (s : Dict V) : Prop :=
+  dfltOf R y = none ∧ s y = none ∧ ∀ d, Edge R y d → Done R r d vis s
+
+/-- A slot that changed was cleared together with everything below it, and because a `delattr`
+of an unvisited node `z` between `a` and it succeeded. -/
+def Touched (R : RTbl V) (a : Name) (vis : List Name) (s s' : Dict V) (x : Name) : Prop :=
+  Full R x s' ∧ ∃ z, z ∉ vis ∧ Reach R a z ∧ (z = x ∨ Reach R z x) ∧ Deletable R s z
+
+structure Post (R : RTbl V) (r a : Name) (vis : List Name) (s : Dict V) (vis' : List Name) (s' : Dict V) : Prop where
+  p1 : ∀ x, s' x = s x ∨ Touched R a vis s s' x
   p2 : ∀ x ∈ vis, x ∈ vis'
-  p3 : ∀ y ∈ vis', y ∉ vis → Closed R y vis' s'
-  p4 : ∀ d, Edge R a d → Done R d vis' s'
+  p3 : ∀ y ∈ vis', y ∉ vis → Closed R r y vis' s'
+  p4 : ∀ d, Edge R a d → Done R r d vis' s'
 
 theorem cleared_persist {R : RTbl V} {s1 s2 : Dict V} (h : Le R s2 s1) {x : Name}
     (hx : s1 x = clearedVal R x) : s2 x = clearedVal R x := by
@@ -254,80 +267,118 @@ theorem cleared_persist {R : RTbl V} {s1 s2 : Dict V} (h : Le R s2 s1) {x : Name
   · rw [h', hx]
   · exact h'
 
+theorem none_persist {R : RTbl V} {s1 s2 : Dict V} (h : Le R s2 s1) {x : Name}
+    (hs : s1 x = none) (hdf : dfltOf R x = none) : s2 x = none := by
+  have := cleared_persist h (x := x) (by rw [hs, clearedVal_none hdf])
+  rw [this, clearedVal_none hdf]
+
 theorem Full.mono {R : RTbl V} {d : Name} {s1 s2 : Dict V} (hf : Full R d s1) (h : Le R s2 s1) : Full R d s2 :=
   ⟨cleared_persist h hf.1, fun e he => cleared_persist h (hf.2 e he)⟩
 
-theorem Done.mono {R : RTbl V} {d : Name} {v1 v2 : List Name} {s1 s2 : Dict V} (hd : Done R d v1 s1)
-    (hv : ∀ x ∈ v1, x ∈ v2) (h : Le R s2 s1) : Done R d v2 s2 := by
-  rcases hd with ⟨hm, hs, hdf⟩ | hf
-  · refine Or.inl ⟨hv d hm, ?_, hdf⟩
-    have := cleared_persist h (x := d) (by rw [hs, clearedVal_none hdf])
-    rw [this, clearedVal_none hdf]
+theorem Deletable.of_le {R : RTbl V} {s1 s : Dict V} (h : Le R s1 s) {z : Name} (hd : Deletable R s1 z) :
+    Deletable R s z := by
+  rcases hd with hd | hd
+  · exact Or.inl hd
+  · cases hdf : dfltOf R z with
+    | some v => exact Or.inl (by simp [hdf])
+    | none =>
+      rcases h z with h' | h'
+      · exact Or.inr (by rw [← h']; exact hd)
+      · rw [h', clearedVal_none hdf] at hd; cases hd
+
+theorem Touched.mono {R : RTbl V} {a : Name} {vis : List Name} {s s1 s2 : Dict V} {x : Name}
+    (ht : Touched R a vis s s1 x) (h : Le R s2 s1) : Touched R a vis s s2 x :=
+  ⟨ht.1.mono h, ht.2⟩
+
+theorem Done.mono {R : RTbl V} {r d : Name} {v1 v2 : List Name} {s1 s2 : Dict V} (hd : Done R r d v1 s1)
+    (hv : ∀ x ∈ v1, x ∈ v2) (h : Le R s2 s1) : Done R r d v2 s2 := by
+  rcases hd with ⟨hm, hs⟩ | hf
+  · refine Or.inl ⟨hv d hm, ?_⟩
+    rcases hs with hs | ⟨hs, hdf⟩
+    · exact Or.inl hs
+    · exact Or.inr ⟨none_persist h hs hdf, hdf⟩
   · exact Or.inr (hf.mono h)
 
-theorem Closed.mono {R : RTbl V} {y : Name} {v1 v2 : List Name} {s1 s2 : Dict V} (hc : Closed R y v1 s1)
-    (hv : ∀ x ∈ v1, x ∈ v2) (h : Le R s2 s1) : Closed R y v2 s2 := by
+theorem Closed.mono {R : RTbl V} {r y : Name} {v1 v2 : List Name} {s1 s2 : Dict V} (hc : Closed R r y v1 s1)
+    (hv : ∀ x ∈ v1, x ∈ v2) (h : Le R s2 s1) : Closed R r y v2 s2 := by
   obtain ⟨hdf, hs, hd⟩ := hc
-  refine ⟨hdf, ?_, fun d e => (hd d e).mono hv h⟩
-  have := cleared_persist h (x := y) (by rw [hs, clearedVal_none hdf])
-  rw [this, clearedVal_none hdf]
+  exact ⟨hdf, none_persist h hs hdf, fun d e => (hd d e).mono hv h⟩
 
-theorem Done.cleared {R : RTbl V} {d : Name} {vis : List Name} {s : Dict V} (h : Done R d vis s) :
-    s d = clearedVal R d := by
-  rcases h with ⟨_, hs, hdf⟩ | hf
-  · rw [hs, clearedVal_none hdf]
+theorem Done.cleared {R : RTbl V} {r d : Name} {vis : List Name} {s : Dict V} (h : Done R r d vis s)
+    (hne : d ≠ r) : s d = clearedVal R d := by
+  rcases h with ⟨_, hs⟩ | hf
+  · rcases hs with hs | ⟨hs, hdf⟩
+    · exact absurd hs hne
+    · rw [hs, clearedVal_none hdf]
   · exact hf.1
 
-theorem Post.le {R : RTbl V} {a : Name} {vis vis' : List Name} {s s' : Dict V} (h : Post R a vis s vis' s') :
+theorem Post.le {R : RTbl V} {r a : Name} {vis vis' : List Name} {s s' : Dict V} (h : Post R r a vis s vis' s') :
     Le R s' s := by
   intro x
   rcases h.p1 x with h' | h'
   · exact Or.inl h'
-  · exact Or.inr h'.2
+  · exact Or.inr h'.1.1
 
-/-- A top-level call (`_visited = {a}`) clears every transitive dependant. -/
+theorem Touched.reach {R : RTbl V} {a : Name} {vis : List Name} {s s' : Dict V} {x : Name}
+    (h : Touched R a vis s s' x) : Reach R a x := by
+  obtain ⟨_, z, _, hz, hx, _⟩ := h
+  rcases hx with rfl | hx
+  · exact hz
+  · exact hz.trans hx
+
+/-- A top-level call (`_visited = {a}`) clears every transitive dependant other than `a` itself. -/
 theorem Post.root {R : RTbl V} {a : Name} {s : Dict V} {vis' : List Name} {s' : Dict V}
-    (h : Post R a [a] s vis' s') : ∀ e, Reach R a e → s' e = clearedVal R e := by
-  have key : ∀ y e, Reach R y e → (y = a ∨ (y ∈ vis' ∧ y ≠ a)) → s' e = clearedVal R e := by
+    (h : Post R a a [a] s vis' s') : ∀ e, Reach R a e → e ≠ a → s' e = clearedVal R e := by
+  have key : ∀ y e, Reach R y e → (y = a ∨ (y ∈ vis' ∧ y ≠ a)) → e ≠ a → s' e = clearedVal R e := by
     intro y e hr
     induction hr with
     | single ed =>
       rename_i y e
-      intro hy
-      have hd : Done R e vis' s' := by
+      intro hy hea
+      have hd : Done R a e vis' s' := by
         rcases hy with rfl | ⟨hm, hne⟩
         · exact h.p4 _ ed
         · exact (h.p3 _ hm (by simpa using hne)).2.2 _ ed
-      exact hd.cleared
+      exact hd.cleared hea
     | head ed hr ih =>
       rename_i y b e
-      intro hy
-      have hd : Done R b vis' s' := by
+      intro hy hea
+      have hd : Done R a b vis' s' := by
         rcases hy with rfl | ⟨hm, hne⟩
         · exact h.p4 _ ed
         · exact (h.p3 _ hm (by simpa using hne)).2.2 _ ed
-      rcases hd with ⟨hm, _, _⟩ | hf
+      rcases hd with ⟨hm, _⟩ | hf
       · by_cases hb : b = a
-        · exact ih (Or.inl hb)
-        · exact ih (Or.inr ⟨hm, hb⟩)
+        · exact ih (Or.inl hb) hea
+        · exact ih (Or.inr ⟨hm, hb⟩) hea
       · exact hf.2 _ hr
-  intro e he
-  exact key a e he (Or.inl rfl)
+  intro e he hea
+  exact key a e he (Or.inl rfl) hea
 
 /-- Loop invariant of the `for invalidatee in ...` loop. `ds` = dependants still to do. -/
-structure LoopInv (R : RTbl V) (a : Name) (vis : List Name) (s : Dict V) (ds : List Name)
+structure LoopInv (R : RTbl V) (r a : Name) (vis : List Name) (s : Dict V) (ds : List Name)
     (vis1 : List Name) (s1 : Dict V) : Prop where
-  i1 : ∀ x, s1 x = s x ∨ (Reach R a x ∧ s1 x = clearedVal R x)
+  i1 : ∀ x, s1 x = s x ∨ Touched R a vis s s1 x
   i2 : ∀ x ∈ vis, x ∈ vis1
-  i3 : ∀ y ∈ vis1, y ∉ vis → Closed R y vis1 s1
-  i4 : ∀ d, Edge R a d → d ∉ ds → Done R d vis1 s1
+  i3 : ∀ y ∈ vis1, y ∉ vis → Closed R r y vis1 s1
+  i4 : ∀ d, Edge R a d → d ∉ ds → Done R r d vis1 s1
 
-theorem LoopInv.le {R : RTbl V} {a : Name} {vis vis1 : List Name} {s s1 : Dict V} {ds : List Name}
-    (h : LoopInv R a vis s ds vis1 s1) : Le R s1 s := by
+theorem LoopInv.le {R : RTbl V} {r a : Name} {vis vis1 : List Name} {s s1 : Dict V} {ds : List Name}
+    (h : LoopInv R r a vis s ds vis1 s1) : Le R s1 s := by
   intro x
   rcases h.i1 x with h' | h'
   · exact Or.inl h'
-  · exact Or.inr h'.2
+  · exact Or.inr h'.1.1
+
+theorem LoopInv.visOK {R : RTbl V} {r a : Name} {vis vis1 : List Name} {s s1 : Dict V} {ds : List Name}
+    (h : LoopInv R r a vis s ds vis1 s1) (hv : VisOK R r vis s) : VisOK R r vis1 s1 := by
+  intro y hy
+  by_cases hyv : y ∈ vis
+  · rcases hv y hyv with h' | ⟨hs, hdf⟩
+    · exact Or.inl h'
+    · exact Or.inr ⟨none_persist h.le hs hdf, hdf⟩
+  · obtain ⟨hdf, hs, _⟩ := h.i3 y hy hyv
+    exact Or.inr ⟨hs, hdf⟩
 
 theorem dset_le_of_cleared {R : RTbl V} {s : Dict V} {d : Name} {v : V} (hd : dfltOf R d = some v) :
     Le R (dset s d (Tag.user, v)) s := by
@@ -345,12 +396,13 @@ theorem derase_le_of_none {R : RTbl V} {s : Dict V} {d : Name} (hd : dfltOf R d 
   · subst hx; right; simp [clearedVal, hd]
   · left; simp [hx]
 
-theorem fold_post {R : RTbl V} (wf : WF R) (a : Name) (vis : List Name) (s : Dict V)
+theorem fold_post {R : RTbl V} (wf : WF R) (r a : Name) (vis : List Name) (s : Dict V)
+    (hvis : VisOK R r vis s)
     (rec : Name → List Name → Dict V → InvRes V)
-    (hrec : ∀ d vis2 s2, mu R d vis2 s2 < mu R a vis s →
-      ∃ vis' s', rec d vis2 s2 = some (vis', s') ∧ Post R d vis2 s2 vis' s') :
-    ∀ ds, (∀ d ∈ ds, Edge R a d) → ∀ vis1 s1, LoopInv R a vis s ds vis1 s1 →
-      ∃ vis' s', invFold R rec ds (vis1, s1) = some (vis', s') ∧ LoopInv R a vis s [] vis' s' := by
+    (hrec : ∀ r' d vis2 s2, mu R d vis2 s2 < mu R a vis s → VisOK R r' vis2 s2 →
+      ∃ vis' s', rec d vis2 s2 = some (vis', s') ∧ Post R r' d vis2 s2 vis' s') :
+    ∀ ds, (∀ d ∈ ds, Edge R a d) → ∀ vis1 s1, LoopInv R r a vis s ds vis1 s1 →
+      ∃ vis' s', invFold R rec ds (vis1, s1) = some (vis', s') ∧ LoopInv R r a vis s [] vis' s' := by
   intro ds
   induction ds with
   | nil =>
@@ -361,28 +413,51 @@ theorem fold_post {R : RTbl V} (wf : WF R) (a : Name) (vis : List Name) (s : Dic
     have ed : Edge R a d := hds d List.mem_cons_self
     have hdn : d ∈ R.names := edge_mem_names wf ed
     have hle1 : Le R s1 s := hinv.le
+    have hvis1 : VisOK R r vis1 s1 := hinv.visOK hvis
     -- it suffices to exhibit the accumulator after this iteration together with the invariant
-    suffices hstep : ∃ vis2 s2, invStep R rec d (vis1, s1) = some (vis2, s2) ∧ LoopInv R a vis s ds vis2 s2 by
+    suffices hstep : ∃ vis2 s2, invStep R rec d (vis1, s1) = some (vis2, s2) ∧ LoopInv R r a vis s ds vis2 s2 by
       obtain ⟨vis2, s2, hs, hinv2⟩ := hstep
       obtain ⟨vis', s', hf, hfin⟩ := ih (fun x hx => hds x (List.mem_cons_of_mem _ hx)) vis2 s2 hinv2
       refine ⟨vis', s', ?_, hfin⟩
       simp only [invFold, hs]
       exact hf
+    unfold invStep
+    by_cases hvis : d ∈ vis1
+    · -- already in `_visited` (the root, or found empty): skipped before `delattr` is tried
+      simp only [hvis, if_true]
+      refine ⟨vis1, s1, rfl, hinv.i1, hinv.i2, hinv.i3, ?_⟩
+      intro e ee he
+      by_cases hed : e = d
+      · subst hed; exact Or.inl ⟨hvis, hvis1 e hvis⟩
+      · have : e ∉ d :: ds := by simp [hed, he]
+        exact hinv.i4 e ee this
+    simp only [hvis, if_false]
+    have hdvis : d ∉ vis := fun h => hvis (hinv.i2 d h)
     -- helper: re-establish the invariant after a delete/reset of `d` followed by a root call
     have finish_root : ∀ (s2 sr : Dict V) (visr : List Name), Le R s2 s1 → s2 d = clearedVal R d →
-        (∀ x, x ≠ d → s2 x = s1 x) →
-        Post R d [d] s2 visr sr → LoopInv R a vis s ds vis1 sr := by
-      intro s2 sr visr hle2 hs2d hs2o hpost
+        (∀ x, x ≠ d → s2 x = s1 x) → Deletable R s d →
+        Post R d d [d] s2 visr sr → LoopInv R r a vis s ds vis1 sr := by
+      intro s2 sr visr hle2 hs2d hs2o hdel hpost
       have hroot := hpost.root
       have hler : Le R sr s1 := hpost.le.trans hle2
-      have hfull : Full R d sr := ⟨cleared_persist hpost.le hs2d, hroot⟩
+      have hfull : Full R d sr := by
+        refine ⟨cleared_persist hpost.le hs2d, fun e he => ?_⟩
+        by_cases hed : e = d
+        · subst hed; exact cleared_persist hpost.le hs2d
+        · exact hroot e he hed
       refine ⟨?_, hinv.i2, ?_, ?_⟩
       · intro x
-        rcases hpost.p1 x with h' | ⟨hr, hc⟩
+        rcases hpost.p1 x with h' | ht
         · by_cases hx : x = d
-          · subst hx; right; exact ⟨.single ed, by rw [h', hs2d]⟩
-          · rw [h', hs2o x hx]; exact hinv.i1 x
-        · right; exact ⟨.head ed hr, hc⟩
+          · subst hx; right; exact ⟨hfull, x, hdvis, .single ed, Or.inl rfl, hdel⟩
+          · rcases hinv.i1 x with h1 | h1
+            · left; rw [h', hs2o x hx, h1]
+            · right; exact h1.mono hler
+        · right
+          refine ⟨ht.1, d, hdvis, .single ed, ?_, hdel⟩
+          by_cases hx : x = d
+          · exact Or.inl hx.symm
+          · exact Or.inr ht.reach
       · intro y hy hyv
         exact (hinv.i3 y hy hyv).mono (fun _ h => h) hler
       · intro e ee he
@@ -390,7 +465,8 @@ theorem fold_post {R : RTbl V} (wf : WF R) (a : Name) (vis : List Name) (s : Dic
         · subst hed; exact Or.inr hfull
         · have : e ∉ d :: ds := by simp [hed, he]
           exact (hinv.i4 e ee this).mono (fun _ h => h) hler
-    unfold invStep
+    have hroot_vis : ∀ s2 : Dict V, VisOK R d [d] s2 := by
+      intro s2 y hy; left; simpa using hy
     cases hdf : dfltOf R d with
     | some v =>
       -- reset to the default through `mutate_attr`
@@ -398,11 +474,12 @@ theorem fold_post {R : RTbl V} (wf : WF R) (a : Name) (vis : List Name) (s : Dic
       have hlt : mu R d [d] (dset s1 d (Tag.user, v)) < mu R a vis s := by
         unfold mu
         exact lex_lt_A (rho_lt wf ed (by simp [hdf])) (pres_lt_N _ _) (unvis_lt_N _ _)
-      obtain ⟨visr, sr, hr, hpost⟩ := hrec d [d] _ hlt
+      obtain ⟨visr, sr, hr, hpost⟩ := hrec d d [d] _ hlt (hroot_vis _)
       refine ⟨vis1, sr, by simp [hr], ?_⟩
       apply finish_root (dset s1 d (Tag.user, v)) sr visr (dset_le_of_cleared hdf)
       · simp [dset, clearedVal, hdf]
       · intro x hx; simp [dset, hx]
+      · exact Or.inl (by simp [hdf])
       · exact hpost
     | none =>
       simp only
@@ -417,102 +494,153 @@ theorem fold_post {R : RTbl V} (wf : WF R) (a : Name) (vis : List Name) (s : Dic
             pres_lt hle2 hdn hdf hpres (by simp [derase])
           have h2 := pres_le hle1
           omega
-        obtain ⟨visr, sr, hr, hpost⟩ := hrec d [d] _ hlt
+        obtain ⟨visr, sr, hr, hpost⟩ := hrec d d [d] _ hlt (hroot_vis _)
         refine ⟨vis1, sr, by simp [hr], ?_⟩
         apply finish_root (derase s1 d) sr visr hle2
         · simp [derase, clearedVal, hdf]
         · intro x hx; simp [derase, hx]
+        · exact Deletable.of_le hle1 (Or.inr hpres)
         · exact hpost
       · have hnone : s1 d = none := by
           cases h : s1 d with
           | none => rfl
           | some _ => simp [h] at hpres
         simp only [hpres]
-        by_cases hvis : d ∈ vis1
-        · -- nothing to delete, already visited
-          simp only [hvis, if_true]
-          refine ⟨vis1, s1, by simp, hinv.i1, hinv.i2, hinv.i3, ?_⟩
-          intro e ee he
+        -- nothing to delete: recurse with the visited set
+        have hlt : mu R d (d :: vis1) s1 < mu R a vis s := by
+          unfold mu
+          apply lex_lt_C (rho_le ed) (pres_le hle1)
+          have h1 : unvis R (d :: vis1) < unvis R vis1 := unvis_lt hdn hvis
+          have h2 := unvis_le (R := R) hinv.i2
+          omega
+        have hv2 : VisOK R r (d :: vis1) s1 := by
+          intro y hy
+          rcases List.mem_cons.1 hy with rfl | hy
+          · exact Or.inr ⟨hnone, hdf⟩
+          · exact hvis1 y hy
+        obtain ⟨visr, sr, hr, hpost⟩ := hrec r d (d :: vis1) s1 hlt hv2
+        refine ⟨visr, sr, by simp [hr], ?_⟩
+        have hler : Le R sr s1 := hpost.le
+        have hsub : ∀ x ∈ vis1, x ∈ visr := fun x hx => hpost.p2 x (List.mem_cons_of_mem _ hx)
+        have hdr : d ∈ visr := hpost.p2 d List.mem_cons_self
+        have hsrd : sr d = none := none_persist hler hnone hdf
+        refine ⟨?_, fun x hx => hsub x (hinv.i2 x hx), ?_, ?_⟩
+        · intro x
+          rcases hpost.p1 x with h' | ht
+          · rcases hinv.i1 x with h1 | h1
+            · left; rw [h', h1]
+            · right; exact h1.mono hler
+          · right
+            obtain ⟨hf, z, hz, hrz, hzx, hdel⟩ := ht
+            refine ⟨hf, z, fun h => hz (List.mem_cons_of_mem _ (hinv.i2 z h)), .head ed hrz, hzx,
+              Deletable.of_le hle1 hdel⟩
+        · intro y hy hyv
+          by_cases hyd : y = d
+          · subst hyd; exact ⟨hdf, hsrd, hpost.p4⟩
+          · by_cases hy1 : y ∈ vis1
+            · exact (hinv.i3 y hy1 hyv).mono hsub hler
+            · exact hpost.p3 y hy (by simp [hyd, hy1])
+        · intro e ee he
           by_cases hed : e = d
-          · subst hed; exact Or.inl ⟨hvis, hnone, hdf⟩
+          · subst hed; exact Or.inl ⟨hdr, Or.inr ⟨hsrd, hdf⟩⟩
           · have : e ∉ d :: ds := by simp [hed, he]
-            exact hinv.i4 e ee this
-        · -- nothing to delete: recurse with the visited set
-          simp only [hvis, if_false]
-          have hlt : mu R d (d :: vis1) s1 < mu R a vis s := by
-            unfold mu
-            apply lex_lt_C (rho_le ed) (pres_le hle1)
-            have h1 : unvis R (d :: vis1) < unvis R vis1 := unvis_lt hdn hvis
-            have h2 := unvis_le (R := R) hinv.i2
-            omega
-          obtain ⟨visr, sr, hr, hpost⟩ := hrec d (d :: vis1) s1 hlt
-          refine ⟨visr, sr, by simp [hr], ?_⟩
-          have hler : Le R sr s1 := hpost.le
-          have hsub : ∀ x ∈ vis1, x ∈ visr := fun x hx => hpost.p2 x (List.mem_cons_of_mem _ hx)
-          have hdr : d ∈ visr := hpost.p2 d List.mem_cons_self
-          have hsrd : sr d = none := by
-            have := cleared_persist hler (x := d) (by rw [hnone, clearedVal_none hdf])
-            rw [this, clearedVal_none hdf]
-          refine ⟨?_, fun x hx => hsub x (hinv.i2 x hx), ?_, ?_⟩
-          · intro x
-            rcases hpost.p1 x with h' | ⟨hr', hc⟩
-            · rw [h']; exact hinv.i1 x
-            · right; exact ⟨.head ed hr', hc⟩
-          · intro y hy hyv
-            by_cases hyd : y = d
-            · subst hyd; exact ⟨hdf, hsrd, hpost.p4⟩
-            · by_cases hy1 : y ∈ vis1
-              · exact (hinv.i3 y hy1 hyv).mono hsub hler
-              · exact hpost.p3 y hy (by simp [hyd, hy1])
-          · intro e ee he
-            by_cases hed : e = d
-            · subst hed; exact Or.inl ⟨hdr, hsrd, hdf⟩
-            · have : e ∉ d :: ds := by simp [hed, he]
-              exact (hinv.i4 e ee this).mono hsub hler
+            exact (hinv.i4 e ee this).mono hsub hler
 
 /-- Main lemma: with enough fuel `invalidate_attrs` terminates and satisfies `Post`. -/
-theorem inv_post {R : RTbl V} (wf : WF R) : ∀ fuel a vis s, mu R a vis s < fuel →
-    ∃ vis' s', invalidate R fuel a vis s = some (vis', s') ∧ Post R a vis s vis' s' := by
+theorem inv_post {R : RTbl V} (wf : WF R) : ∀ fuel r a vis s, mu R a vis s < fuel → VisOK R r vis s →
+    ∃ vis' s', invalidate R fuel a vis s = some (vis', s') ∧ Post R r a vis s vis' s' := by
   intro fuel
   induction fuel with
-  | zero => intro a vis s h; omega
+  | zero => intro r a vis s h; omega
   | succ fuel ih =>
-    intro a vis s h
-    have hrec : ∀ d vis2 s2, mu R d vis2 s2 < mu R a vis s →
-        ∃ vis' s', invalidate R fuel d vis2 s2 = some (vis', s') ∧ Post R d vis2 s2 vis' s' :=
-      fun d vis2 s2 hlt => ih d vis2 s2 (by omega)
-    have hinit : LoopInv R a vis s (depList R a) vis s :=
+    intro r a vis s h hv
+    have hrec : ∀ r' d vis2 s2, mu R d vis2 s2 < mu R a vis s → VisOK R r' vis2 s2 →
+        ∃ vis' s', invalidate R fuel d vis2 s2 = some (vis', s') ∧ Post R r' d vis2 s2 vis' s' :=
+      fun r' d vis2 s2 hlt hv2 => ih r' d vis2 s2 (by omega) hv2
+    have hinit : LoopInv R r a vis s (depList R a) vis s :=
       ⟨fun _ => Or.inl rfl, fun _ h => h, fun y hy hn => absurd hy hn, fun d ed hd => absurd ed hd⟩
-    obtain ⟨vis', s', hf, hfin⟩ := fold_post wf a vis s (invalidate R fuel) hrec (depList R a) (fun _ h => h) vis s hinit
+    obtain ⟨vis', s', hf, hfin⟩ :=
+      fold_post wf r a vis s hv (invalidate R fuel) hrec (depList R a) (fun _ h => h) vis s hinit
     refine ⟨vis', s', ?_, hfin.i1, hfin.i2, hfin.i3, fun d ed => hfin.i4 d ed (by simp)⟩
     simp only [invalidate]
     exact hf
 
+theorem visOK_root (R : RTbl V) (a : Name) (s : Dict V) : VisOK R a [a] s := by
+  intro y hy; left; simpa using hy
+
 /-! ## exact characterisation of a top-level invalidation -/
 
-open Classical in
-/-- `s` with every transitive dependant of `a` deleted / reset to its default. -/
-noncomputable def clearReach (R : RTbl V) (a : Name) (s : Dict V) : Dict V :=
-  fun x => if Reach R a x then clearedVal R x else s x
+/-- Some OTHER node on a dependency cycle through `a` holds a value: its `delattr` succeeds,
+re-enters `invalidate_attrs` with a fresh `_visited`, and comes back to `a`. -/
+def CycleFull (R : RTbl V) (a : Name) (s : Dict V) : Prop :=
+  ∃ y, y ≠ a ∧ Reach R a y ∧ Reach R y a ∧ (s y).isSome
 
-theorem clearReach_of_reach {R : RTbl V} {a x : Name} (s : Dict V) (h : Reach R a x) :
-    clearReach R a s x = clearedVal R x := by simp [clearReach, h]
+open Classical in
+/-- `s` with every transitive dependant of `a` deleted / reset to its default — `a` itself (when it
+lies on a dependency cycle) only if another node of such a cycle held a value. -/
+noncomputable def clearReach (R : RTbl V) (a : Name) (s : Dict V) : Dict V :=
+  fun x => if Reach R a x ∧ (x ≠ a ∨ CycleFull R a s) then clearedVal R x else s x
+
+theorem clearReach_of_reach {R : RTbl V} {a x : Name} (s : Dict V) (h : Reach R a x) (hne : x ≠ a) :
+    clearReach R a s x = clearedVal R x := by simp [clearReach, h, hne]
 theorem clearReach_of_not {R : RTbl V} {a x : Name} (s : Dict V) (h : ¬ Reach R a x) :
     clearReach R a s x = s x := by simp [clearReach, h]
+theorem clearReach_self {R : RTbl V} (a : Name) (s : Dict V) :
+    clearReach R a s a = s a ∨ clearReach R a s a = clearedVal R a := by
+  unfold clearReach
+  split
+  · exact Or.inr rfl
+  · exact Or.inl rfl
+theorem clearReach_self_keep {R : RTbl V} {a : Name} (s : Dict V) (h : ¬ CycleFull R a s) :
+    clearReach R a s a = s a := by simp [clearReach, h]
+theorem clearReach_self_drop {R : RTbl V} {a : Name} (s : Dict V) (hr : Reach R a a) (h : CycleFull R a s) :
+    clearReach R a s a = clearedVal R a := by simp [clearReach, h, hr]
+theorem clearReach_le {R : RTbl V} (a : Name) (s : Dict V) (x : Name) :
+    clearReach R a s x = s x ∨ clearReach R a s x = clearedVal R x := by
+  unfold clearReach
+  split
+  · exact Or.inr rfl
+  · exact Or.inl rfl
 
 theorem invalidateTop_eq {R : RTbl V} (wf : WF R) (a : Name) (s : Dict V) :
     invalidateTop R a s = some (clearReach R a s) := by
-  obtain ⟨vis', s', h, hpost⟩ := inv_post wf R.fuel a [a] s (mu_lt_fuel R a [a] s)
+  obtain ⟨vis', s', h, hpost⟩ := inv_post wf R.fuel a a [a] s (mu_lt_fuel R a [a] s) (visOK_root R a s)
   unfold invalidateTop
   rw [h]
   simp only [Option.map_some, Option.some.injEq]
   funext x
   by_cases hr : Reach R a x
-  · rw [clearReach_of_reach s hr]; exact hpost.root x hr
+  · by_cases hxa : x = a
+    · subst hxa
+      by_cases hc : CycleFull R x s
+      · rw [clearReach_self_drop s hr hc]
+        obtain ⟨y, hya, hay, hyx, hsy⟩ := hc
+        have hdf : dfltOf R y = none := by
+          cases hd : dfltOf R y with
+          | none => rfl
+          | some v => exact absurd (hyx.trans hay) (wf.acyc y (by simp [hd]))
+        have hy' : s' y = none := by rw [hpost.root y hay hya, clearedVal_none hdf]
+        rcases hpost.p1 y with h' | ht
+        · rw [hy'] at h'; rw [← h'] at hsy; cases hsy
+        · exact ht.1.2 x hyx
+      · rw [clearReach_self_keep s hc]
+        rcases hpost.p1 x with h' | ht
+        · exact h'
+        · exfalso
+          obtain ⟨_, z, hz, hxz, hzx, hdel⟩ := ht
+          have hzne : z ≠ x := by simpa using hz
+          have hzx' : Reach R z x := by
+            rcases hzx with h0 | h0
+            · exact absurd h0 hzne
+            · exact h0
+          rcases hdel with hd | hd
+          · exact wf.acyc z hd (hzx'.trans hxz)
+          · exact hc ⟨z, hzne, hxz, hzx', hd⟩
+    · rw [clearReach_of_reach s hr hxa]; exact hpost.root x hr hxa
   · rw [clearReach_of_not s hr]
-    rcases hpost.p1 x with h' | ⟨hr', _⟩
+    rcases hpost.p1 x with h' | ht
     · exact h'
-    · exact absurd hr' hr
+    · exact absurd ht.reach hr
 
 /-- raw `setattr` works unless the name is a property that is not overridable. -/
 def settable (R : RTbl V) (a : Name) : Bool :=
@@ -604,8 +732,13 @@ theorem fresh_write {R : RTbl V} (gl : GetterLocal R) {s : Dict V} (x : Name) (e
     (he : ∀ w, e ≠ some (Tag.cache, w)) (hf : FreshCache R s) :
     FreshCache R (clearReach R x (fun m => if m = x then e else s m)) := by
   intro p w hp
+  by_cases hpx0 : p = x
+  · subst hpx0
+    rcases clearReach_self p (fun m => if m = p then e else s m) with h' | h'
+    · rw [h'] at hp; simp at hp; exact absurd hp (he w)
+    · rw [h'] at hp; exact absurd hp clearedVal_not_cache
   by_cases hr : Reach R x p
-  · rw [clearReach_of_reach _ hr] at hp; exact absurd hp clearedVal_not_cache
+  · rw [clearReach_of_reach _ hr hpx0] at hp; exact absurd hp clearedVal_not_cache
   · rw [clearReach_of_not _ hr] at hp
     by_cases hpx : p = x
     · subst hpx; simp at hp; exact absurd hp (he w)
@@ -652,14 +785,14 @@ theorem Run.le_at {R : RTbl V} {s s' : Dict V} {F D : List Name} (h : Run R s F 
     have hzx : z ≠ x := fun h => hD (h ▸ List.mem_cons_self)
     rcases ih hF (fun h => hD (List.mem_cons_of_mem _ h)) with h' | h'
     · by_cases hr : Reach R x z
-      · right; rw [h', clearReach_of_reach _ hr]
+      · right; rw [h', clearReach_of_reach _ hr hzx]
       · left; rw [h', clearReach_of_not _ hr]; simp [dset, hzx]
     · exact Or.inr h'
   | @erase s x F D s2 hp hrun ih =>
     have hzx : z ≠ x := fun h => hD (h ▸ List.mem_cons_self)
     rcases ih hF (fun h => hD (List.mem_cons_of_mem _ h)) with h' | h'
     · by_cases hr : Reach R x z
-      · right; rw [h', clearReach_of_reach _ hr]
+      · right; rw [h', clearReach_of_reach _ hr hzx]
       · left; rw [h', clearReach_of_not _ hr]; simp [derase, hzx]
     · exact Or.inr h'
 
@@ -681,13 +814,13 @@ theorem Run.cleared {R : RTbl V} {s s' : Dict V} {F D : List Name} (h : Run R s 
     intro d hd z hr hD hF
     have hD' : z ∉ D := fun h => hD (List.mem_cons_of_mem _ h)
     rcases List.mem_cons.1 hd with rfl | hd'
-    · exact hrun.persist hF hD' (clearReach_of_reach _ hr)
+    · exact hrun.persist hF hD' (clearReach_of_reach _ hr (fun h => hD (h ▸ List.mem_cons_self)))
     · exact ih d hd' z hr hD' hF
   | @erase s x F D s2 hp hrun ih =>
     intro d hd z hr hD hF
     have hD' : z ∉ D := fun h => hD (List.mem_cons_of_mem _ h)
     rcases List.mem_cons.1 hd with rfl | hd'
-    · exact hrun.persist hF hD' (clearReach_of_reach _ hr)
+    · exact hrun.persist hF hD' (clearReach_of_reach _ hr (fun h => hD (h ▸ List.mem_cons_self)))
     · exact ih d hd' z hr hD' hF
 
 /-- Unrelated names keep what they hold. -/
@@ -731,13 +864,13 @@ theorem Run.persist_some {R : RTbl V} {s s' : Dict V} {F D : List Name} (h : Run
     have hzx : z ≠ x := fun h => hD (h ▸ List.mem_cons_self)
     apply ih (fun h => hD (List.mem_cons_of_mem _ h))
     by_cases hr : Reach R x z
-    · rw [clearReach_of_reach _ hr]
+    · rw [clearReach_of_reach _ hr hzx]
     · rw [clearReach_of_not _ hr]; simp [dset, hzx, hz]
   | @erase s x F D s2 hp hrun ih =>
     have hzx : z ≠ x := fun h => hD (h ▸ List.mem_cons_self)
     apply ih (fun h => hD (List.mem_cons_of_mem _ h))
     by_cases hr : Reach R x z
-    · rw [clearReach_of_reach _ hr]
+    · rw [clearReach_of_reach _ hr hzx]
     · rw [clearReach_of_not _ hr]; simp [derase, hzx, hz]
 
 theorem Run.cleared_some {R : RTbl V} {s s' : Dict V} {F D : List Name} (h : Run R s F D s') :
@@ -749,13 +882,13 @@ theorem Run.cleared_some {R : RTbl V} {s s' : Dict V} {F D : List Name} (h : Run
     intro d hd z hr hD hsome
     have hD' : z ∉ D := fun h => hD (List.mem_cons_of_mem _ h)
     rcases List.mem_cons.1 hd with rfl | hd'
-    · exact hrun.persist_some hD' (clearReach_of_reach _ hr) hsome
+    · exact hrun.persist_some hD' (clearReach_of_reach _ hr (fun h => hD (h ▸ List.mem_cons_self))) hsome
     · exact ih d hd' z hr hD' hsome
   | @erase s x F D s2 hp hrun ih =>
     intro d hd z hr hD hsome
     have hD' : z ∉ D := fun h => hD (List.mem_cons_of_mem _ h)
     rcases List.mem_cons.1 hd with rfl | hd'
-    · exact hrun.persist_some hD' (clearReach_of_reach _ hr) hsome
+    · exact hrun.persist_some hD' (clearReach_of_reach _ hr (fun h => hD (h ▸ List.mem_cons_self))) hsome
     · exact ih d hd' z hr hD' hsome
 
 /-! ## every API entry point is a run -/
@@ -1751,9 +1884,20 @@ theorem invalidateTop_order {R : RTbl V} (wf : WF R) (im' : Key → List Name)
   rw [invalidateTop_eq wf, invalidateTop_eq wf']
   congr 1
   funext x
-  by_cases hx : Reach R a x
-  · rw [clearReach_of_reach _ hx, clearReach_of_reach _ ((hr a x).2 hx)]; rfl
-  · rw [clearReach_of_not _ hx, clearReach_of_not _ (fun h' => hx ((hr a x).1 h'))]
+  have hc : CycleFull { R with invMap := im' } a s ↔ CycleFull R a s := by
+    constructor
+    · rintro ⟨y, h1, h2, h3, h4⟩; exact ⟨y, h1, (hr _ _).1 h2, (hr _ _).1 h3, h4⟩
+    · rintro ⟨y, h1, h2, h3, h4⟩; exact ⟨y, h1, (hr _ _).2 h2, (hr _ _).2 h3, h4⟩
+  by_cases hcond : Reach R a x ∧ (x ≠ a ∨ CycleFull R a s)
+  · have hcond' : Reach { R with invMap := im' } a x ∧ (x ≠ a ∨ CycleFull { R with invMap := im' } a s) :=
+      ⟨(hr _ _).2 hcond.1, hcond.2.imp id hc.2⟩
+    unfold clearReach
+    rw [if_pos hcond, if_pos hcond']
+    rfl
+  · have hcond' : ¬ (Reach { R with invMap := im' } a x ∧ (x ≠ a ∨ CycleFull { R with invMap := im' } a s)) :=
+      fun h' => hcond ⟨(hr _ _).1 h'.1, h'.2.imp id hc.1⟩
+    unfold clearReach
+    rw [if_neg hcond, if_neg hcond']
 
 /-! ## the counter-witness of KF-C11-plain-subclass: a cached property declared in an undecorated subclass -/
 
